@@ -75,6 +75,7 @@ type MessageQueue struct {
 	eventPublisher     notifications.Publisher
 	buildersLk         sync.RWMutex
 	builders           []*Builder
+	closed             bool // set (under buildersLk) once the queue will not send any more messages
 	nextBuilderTopic   Topic
 	allocator          Allocator
 	maxRetries         int
@@ -121,6 +122,13 @@ func (mq *MessageQueue) AllocateAndBuildMessage(size uint64, buildMessageFn func
 
 func (mq *MessageQueue) buildMessage(size uint64, buildMessageFn func(*Builder)) bool {
 	mq.buildersLk.Lock()
+	if mq.closed {
+		topic := mq.nextBuilderTopic
+		mq.nextBuilderTopic++
+		mq.buildersLk.Unlock()
+		mq.rejectMessage(topic, size, buildMessageFn)
+		return false
+	}
 	defer mq.buildersLk.Unlock()
 	if shouldBeginNewResponse(mq.builders, size) {
 		topic := mq.nextBuilderTopic
@@ -139,6 +147,34 @@ func (mq *MessageQueue) buildMessage(size uint64, buildMessageFn func(*Builder))
 		_ = mq.allocator.ReleaseBlockMemory(mq.p, size-(sizeAfter-sizeBefore))
 	}
 	return !builder.Empty()
+}
+
+// rejectMessage handles a message built after the queue has stopped sending
+// (through a handle obtained before the queue shut down): nothing is queued,
+// the memory reserved for it is returned and, exactly as for the messages
+// drained at shutdown, everyone attached to it is told that it failed.
+func (mq *MessageQueue) rejectMessage(topic Topic, size uint64, buildMessageFn func(*Builder)) {
+	builder := NewBuilder(mq.ctx, topic)
+	buildMessageFn(builder)
+	if size > 0 {
+		_ = mq.allocator.ReleaseBlockMemory(mq.p, size)
+	}
+	if builder.Empty() {
+		return
+	}
+	// the queue's own publisher may already be shut down
+	publisher := notifications.NewPublisher()
+	publisher.Startup()
+	defer publisher.Shutdown()
+	_, metadata, err := builder.build(publisher)
+	if err != nil {
+		return
+	}
+	for _, responseStream := range metadata.responseStreams {
+		_ = responseStream.Close()
+	}
+	publisher.Publish(topic, Event{Name: Error, Err: errors.New("message queue shutdown"), Metadata: metadata.public})
+	publisher.Close(topic)
 }
 
 func shouldBeginNewResponse(builders []*Builder, blkSize uint64) bool {
@@ -176,23 +212,23 @@ func (mq *MessageQueue) runQueue() {
 		case <-mq.outgoingWork:
 			mq.sendMessage()
 		case <-mq.done:
-			select {
-			case <-mq.outgoingWork:
-				for {
-					_, metadata, err := mq.extractOutgoingMessage()
-					if err == nil {
-						span := trace.SpanFromContext(metadata.ctx)
-						err := fmt.Errorf("message queue shutdown")
-						span.RecordError(err)
-						span.SetStatus(codes.Error, err.Error())
-						span.End()
-						mq.publishError(metadata, err)
-						mq.eventPublisher.Close(metadata.topic)
-					} else {
-						break
-					}
+			// from here on nothing is queued any more (see buildMessage)
+			mq.buildersLk.Lock()
+			mq.closed = true
+			mq.buildersLk.Unlock()
+			for {
+				_, metadata, err := mq.extractOutgoingMessage()
+				if err == nil {
+					span := trace.SpanFromContext(metadata.ctx)
+					err := fmt.Errorf("message queue shutdown")
+					span.RecordError(err)
+					span.SetStatus(codes.Error, err.Error())
+					span.End()
+					mq.publishError(metadata, err)
+					mq.eventPublisher.Close(metadata.topic)
+				} else {
+					break
 				}
-			default:
 			}
 			if mq.sender != nil {
 				mq.sender.Close()
